@@ -107,7 +107,7 @@ class Patterns:
         if name in self.names:
             return name
         try:
-            tree, ngroups = rx.translate(pattern, flags & ~re.UNICODE, self.cache)
+            tree, ngroups, _eff = rx.translate(pattern, flags & ~re.UNICODE, self.cache)
         except rx.Unsupported as e:
             raise TranslateError('pattern %s (%r): unsupported construct: %s' % (name, pattern, e))
         self.items.append((name, pattern, flags, tree, ngroups))
@@ -326,6 +326,7 @@ def main():
     D.append('def defaultSafeMode : Int := %d' % options.safeMode)
     D.append('def defaultHtmlReplacement : Str := ' + L(options.htmlReplacement))
     D.append('def uninitSafeMode : Int := -1')
+    D.append('def maxExpansionDepth : Nat := %d' % int(lb.MAX_EXPANSION_DEPTH))
 
     # quote regex template: run the real synthesis with a sentinel quote
     saved = list(quotes.defs)
@@ -338,7 +339,7 @@ def main():
     quotes.initializeRegExps()
 
     def template(src, flags, what):
-        tree, ngroups = rx.translate(src, flags & ~re.UNICODE, cache)
+        tree, ngroups, _eff = rx.translate(src, flags & ~re.UNICODE, cache)
         hole = ('chr', ((0xE000, 0xE000),), False)
         count = [0]
 
